@@ -302,6 +302,20 @@ func (prop) Run(t *testing.T, tape *kernel.Tape, sc kernel.Scenario) *kernel.Res
 			ws.query[staticName] = "anonymous-static"
 		}
 	}
+	srvCtxDone := tape.Bool(5, "server-side-context-already-cancelled")
+	if srvCtxDone {
+		env.Fault("server-side-context-already-cancelled")
+	}
+	// one member of the composed credential writers cannot do its job (its token source is down)
+	failingMember := -1
+	if n := len(opCreds) + len(defCreds); n > 0 && preset == "" && tape.Bool(6, "a-composed-writer-fails") {
+		l := opCreds
+		if len(l) == 0 {
+			l = defCreds
+		}
+		failingMember = tape.Choose(len(l)+1, "failing-member-position")
+		env.Fault("a-composed-writer-fails")
+	}
 	debugMode := tape.Bool(4, "debug-mode")
 	earlierFailed := tape.Bool(3, "earlier-call-with-failing-streamed-body")
 	earlierFailAt := tape.Choose(300, "earlier-fail-at")
@@ -490,7 +504,7 @@ func (prop) Run(t *testing.T, tape *kernel.Tape, sc kernel.Scenario) *kernel.Res
 	kernel.RunBubble(t, env, func(k *kernel.K1) {
 		bridge := &simhttp.Bridge{Env: env, Name: "wire", Handler: handler,
 			BodyChunkMode: tape.Choose(4, "srv-chunk"), BodyFixed: 1 + tape.Choose(40, "srv-fixed"),
-			PullMode: tape.Choose(4, "pull"), PullFixed: 1 + tape.Choose(60, "pull-fixed"), SrvBodyFailPermille: bodyDies}
+			PullMode: tape.Choose(4, "pull"), PullFixed: 1 + tape.Choose(60, "pull-fixed"), SrvBodyFailPermille: bodyDies, ServerCtxDone: srvCtxDone}
 		basePath, pattern := "/api", "/secured"
 		switch staticIn {
 		case 1:
@@ -504,16 +518,23 @@ func (prop) Run(t *testing.T, tape *kernel.Tape, sc kernel.Scenario) *kernel.Res
 			rt.Debug = true
 			rt.SetLogger(quietLogger{})
 		}
-		compose := func(l []cred) runtime.ClientAuthInfoWriter {
-			if len(l) == 1 {
+		composeWith := func(l []cred, failAt int) runtime.ClientAuthInfoWriter {
+			if len(l) == 1 && failAt < 0 {
 				return l[0].writer()
 			}
 			var ws []runtime.ClientAuthInfoWriter
-			for _, c := range l {
+			for i, c := range l {
+				if i == failAt {
+					ws = append(ws, failingWriter{})
+				}
 				ws = append(ws, c.writer())
+			}
+			if failAt >= len(l) {
+				ws = append(ws, failingWriter{})
 			}
 			return client.Compose(ws...)
 		}
+		compose := func(l []cred) runtime.ClientAuthInfoWriter { return composeWith(l, -1) }
 		var warmup func()
 		if len(earlierDefault) > 0 {
 			rt.DefaultAuthentication = compose(earlierDefault)
@@ -552,7 +573,7 @@ func (prop) Run(t *testing.T, tape *kernel.Tape, sc kernel.Scenario) *kernel.Res
 				return nil, nil
 			})}
 		if len(opCreds) > 0 {
-			cop.AuthInfo = compose(opCreds)
+			cop.AuthInfo = composeWith(opCreds, failingMember)
 		}
 		k.Go("caller", func() {
 			submitPanic = kernel.Catch(func() {
@@ -564,6 +585,9 @@ func (prop) Run(t *testing.T, tape *kernel.Tape, sc kernel.Scenario) *kernel.Res
 				}
 				if len(defCreds) > 0 {
 					rt.DefaultAuthentication = compose(defCreds)
+					if len(opCreds) == 0 {
+						rt.DefaultAuthentication = composeWith(defCreds, failingMember)
+					}
 				}
 				if earlierFailed {
 					// an earlier call through the very same credential writers whose streamed payload broke off
@@ -612,6 +636,14 @@ func (prop) Run(t *testing.T, tape *kernel.Tape, sc kernel.Scenario) *kernel.Res
 	}
 	if submitPanic != "" {
 		env.Violate("C14/panic", sig, "exchange panicked: %s", submitPanic)
+		res.FromEnv(env)
+		return res
+	}
+	if failingMember >= 0 {
+		// a credential could not be written: the call fails, nothing half-authenticated goes out
+		if submitErr == nil || len(calls) > 0 || world.Slots[0].HandlerRan > 0 {
+			env.Violate("C14/credential-differs", sig+":a-composed-writer-failed", "member %d of the composed credential writers failed, yet Submit returned err=%v, the server's callback was called %d times and the handler ran %d times", failingMember, submitErr, len(calls), world.Slots[0].HandlerRan)
+		}
 		res.FromEnv(env)
 		return res
 	}
@@ -736,3 +768,10 @@ type quietLogger struct{}
 
 func (quietLogger) Printf(string, ...interface{}) {}
 func (quietLogger) Debugf(string, ...interface{}) {}
+
+// failingWriter is a credential writer whose source of credentials is unavailable.
+type failingWriter struct{}
+
+func (failingWriter) AuthenticateRequest(runtime.ClientRequest, strfmt.Registry) error {
+	return stderrors.New("credential source unavailable")
+}
